@@ -1813,8 +1813,8 @@ public:
     for (size_t i = 0; i < v2.size(); i++)
     {
       if (i > 0 && v2[i] == v2[i - 1]) continue;
-      while (j < v1.size() - 1 && v1[j] < v2[i]) j++;
-      if (v1[j] != v2[i]) return false;
+      while (j < v1.size() && v1[j] < v2[i]) j++;
+      if (j == v1.size() || v1[j] != v2[i]) return false;
     }
     return true;
   }
